@@ -164,6 +164,22 @@ fn handler(req: Request) -> Response {
             _ => Response::text(200, format!("gate-{id}")),
         };
     }
+    if path == "/replay" {
+        let (mut sender, r) = Response::event_stream();
+        for k in 0..60 { sender.send(servlin::Event::Message(format!("backlog{k}"))); }
+        return r;
+    }
+    if path.starts_with("/sse") {
+        // an event stream of 8 events, one every 40 ms, produced by another thread; then the sender goes away
+        let (mut sender, r) = Response::event_stream();
+        std::thread::spawn(move || {
+            for k in 0..8 {
+                sender.send(servlin::Event::Message(format!("tick{k}")));
+                std::thread::sleep(Duration::from_millis(40));
+            }
+        });
+        return r;
+    }
     match path.as_str() {
         "/big" => Response::text(200, big_body()),
         "/huge" => Response::text(200, "h".repeat(32 * 1024 * 1024)),
@@ -353,6 +369,16 @@ fn client_run(c: &mut TcpStream, kind: char, id: usize) -> String {
             std::thread::sleep(Duration::from_millis(60));
             "-".to_string()
         }
+        'y' => {
+            // an event stream whose handler queues 60 events before it returns (the queue holds 50: the sender is disconnected,
+            // the handler never waits); the client reads the head and leaves
+            let _ = c.write_all(b"GET /replay HTTP/1.1\r\n\r\n");
+            let _ = c.set_read_timeout(Some(Duration::from_millis(1500)));
+            let mut buf = [0u8; 64];
+            let r = match c.read(&mut buf) { Ok(k) if k > 12 => String::from_utf8_lossy(&buf[9..12]).to_string(), _ => "timeout".to_string() };
+            std::thread::sleep(Duration::from_millis(10));
+            r
+        }
         'x' => {
             // an upload that the handler refuses: longer than the limit it gives (413)
             let _ = c.write_all(b"POST /upsmall HTTP/1.1\r\ncontent-length: 200000\r\n\r\n");
@@ -419,11 +445,15 @@ pub fn case_limit(ctx: &mut Ctx, n: &str, kinds: &str, delays: &str) {
         }
         // (two clients more than there are slots: they must wait their turn, never be serviced beyond the limit)
         let fresh: Vec<_> = (0..nn + 2).map(|j| { let addr = srv.addr; std::thread::spawn(move || client(addr, 'g', 1000 + j, 0)) }).collect();
+        // ... and two that try the same port on the IPv6 loopback: the server listens where it was told to, and `max_conns`
+        // is the limit of the server, not of an address family
+        let v6: Vec<_> = (0..2).map(|j| { let addr = SocketAddr::new(std::net::IpAddr::V6(std::net::Ipv6Addr::LOCALHOST), srv.addr.port()); std::thread::spawn(move || client(addr, 'g', 1500 + j, 0)) }).collect();
         let full = wait_gauge(|g| g.entered >= nn, Duration::from_secs(8));
         std::thread::sleep(Duration::from_millis(60));
         { let mut g = gate().0.lock().unwrap(); let now = g.entered; g.max = g.max.max(now); }
         release_all();
         let fresh_ok = fresh.into_iter().map(|h| h.join().map(|r| r.0).unwrap_or_default()).filter(|r| r == "200").count().min(nn);
+        for h in v6 { let _ = h.join(); }
         drop(lingering);
         let max2 = gate().0.lock().unwrap().max;
         let stopped = stop(srv);
@@ -455,6 +485,7 @@ pub fn case_shutdown(ctx: &mut Ctx, n: &str, phases: &str, delay: &str) {
         // (the handler owns state whose clean-up takes 120 ms: the listening socket is released before the signal all the same)
         let mut srv = start_on(executor(), nn, 120);
         let mut conns: Vec<TcpStream> = Vec::new();
+        let sse_seen: Mutex<std::collections::HashMap<usize, Vec<u8>>> = Mutex::new(std::collections::HashMap::new());
         for (i, p) in ph.iter().enumerate() {
             let Some(mut c) = connect(srv.addr) else { return "noconn".to_string() };
             match p {
@@ -469,6 +500,15 @@ pub fn case_shutdown(ctx: &mut Ctx, n: &str, phases: &str, delay: &str) {
                     if !wait_gauge(|g| g.inside.contains(&id), Duration::from_secs(8)) { return "setup-failed".to_string(); }
                 }
                 'b' => { let _ = c.write_all(b"POST /up HTTP/1.1\r\ncontent-length: 1000\r\n\r\n0123456789"); }
+                's' => {
+                    // an event stream that has started (its head and first event have arrived) and goes on for 300 ms more
+                    let _ = c.write_all(format!("GET /sse/{i} HTTP/1.1\r\n\r\n").as_bytes());
+                    let mut got = Vec::new();
+                    let mut buf = [0u8; 4096];
+                    let _ = c.set_read_timeout(Some(Duration::from_secs(3)));
+                    while !got.windows(6).any(|w| w == b"data: ") { match c.read(&mut buf) { Ok(k) if k > 0 => got.extend_from_slice(&buf[..k]), _ => return "setup-failed".to_string() } }
+                    sse_seen.lock().unwrap().insert(i, got);
+                }
                 'x' => {
                     // the handler is running on a request that announced its body with Expect; the body has not been asked for yet
                     let _ = c.write_all(format!("POST /gate/x/{i} HTTP/1.1\r\ncontent-length: 70000\r\nexpect: 100-continue\r\n\r\n").as_bytes());
@@ -519,6 +559,16 @@ pub fn case_shutdown(ctx: &mut Ctx, n: &str, phases: &str, delay: &str) {
                 'I' => { let _ = c.write_all(b"GET /ok HTTP/1.1\r\n\r\nGET /ok HTTP/1.1\r\n\r\nGET /ok HTTP/1.1\r\n\r\n"); read_response(&mut c) }
                 'H' => { let _ = c.write_all(b"\r\n\r\nGET /ok HTTP/1.1\r\n\r\nGET /ok HTTP/1.1\r\n\r\n"); read_response(&mut c) }
                 'r' => { release(&i.to_string()); read_response(&mut c) }
+                's' => {
+                    // the stream goes on to its end: all 8 events and the terminating chunk
+                    let mut got = sse_seen.lock().unwrap().remove(&i).unwrap_or_default();
+                    let mut buf = [0u8; 4096];
+                    let _ = c.set_read_timeout(Some(Duration::from_secs(3)));
+                    while !got.ends_with(b"0\r\n\r\n") { match c.read(&mut buf) { Ok(k) if k > 0 => got.extend_from_slice(&buf[..k]), _ => break } }
+                    let events = got.windows(10).filter(|w| w.starts_with(b"data: tick")).count();
+                    let status = String::from_utf8_lossy(&got).split(' ').nth(1).unwrap_or("?").to_string();
+                    if got.ends_with(b"0\r\n\r\n") { format!("{status}/{events}") } else { format!("cut@{events}") }
+                }
                 'b' => { let _ = c.write_all(&[b'x'; 990]); read_response(&mut c) }
                 'x' => {
                     release(&i.to_string());
@@ -779,7 +829,7 @@ pub fn run_tokens(ctx: &mut Ctx) {
 pub fn run_limit(ctx: &mut Ctx) {
     let mut rng = Rng::new(ctx.seed.wrapping_add(12));
     let count = if ctx.thorough() { 160 } else { 24 };
-    let all = ['g', 'e', 'p', 'd', 'm', 'a', 'u', 'v', 'w', 'x', 'k', 'r', 'E', 'P', 'D', 'M'];
+    let all = ['g', 'e', 'p', 'd', 'm', 'a', 'u', 'v', 'w', 'x', 'y', 'k', 'r', 'E', 'P', 'D', 'M'];
     for idx in 0..count {
         let n = 1 + (idx as usize % 4);
         let clients = rng.range(2 * n as u64, 3 * n as u64) as usize;
@@ -792,7 +842,7 @@ pub fn run_limit(ctx: &mut Ctx) {
         if ctx.mine(idx + 1) { case_limit(ctx, &n.to_string(), &kinds, &format!("{prefix}{}", delays.join(","))); }
     }
     // histories made of connections that end in an error (malformed request, aborted upload with a reset), under a stalled logger
-    for (j, (n, kinds)) in [(2usize, "mmmmgg"), (1, "mmwmg"), (2, "wwwwgg"), (3, "mwmwmwggg"), (2, "MmMmgg"), (2, "xxxgg"), (1, "xxg"), (3, "xmxwxggg")].iter().enumerate() {
+    for (j, (n, kinds)) in [(2usize, "mmmmgg"), (1, "mmwmg"), (2, "wwwwgg"), (3, "mwmwmwggg"), (2, "MmMmgg"), (2, "xxxgg"), (1, "xxg"), (3, "xmxwxggg"), (2, "yyygg"), (1, "yg")].iter().enumerate() {
         for prefix in ["L1:", ""] {
             if ctx.mine(1000 + j as u64) {
                 let delays: Vec<String> = (0..kinds.len()).map(|i| (i * 3).to_string()).collect();
@@ -881,7 +931,7 @@ pub fn run_emfile_idle(ctx: &mut Ctx) {
 /// c13w: only the "response being written" phase of c13 (a 6 MiB response to a client that is not reading yet, the permit
 /// revoked meanwhile): the response must arrive complete.  Shared with C06.
 pub fn run_c13w(ctx: &mut Ctx) {
-    for (i, (n, ph, delay)) in [(1usize, "w", 0u64), (2, "w", 10), (2, "ww", 20), (1, "w", 40)].iter().enumerate() {
+    for (i, (n, ph, delay)) in [(1usize, "w", 0u64), (2, "w", 10), (2, "ww", 20), (1, "w", 40), (1, "s", 0), (2, "s", 30), (3, "ss", 90), (2, "sw", 150)].iter().enumerate() {
         if ctx.mine(i as u64) { case_shutdown(ctx, &n.to_string(), ph, &delay.to_string()); }
     }
 }
@@ -889,7 +939,7 @@ pub fn run_c13w(ctx: &mut Ctx) {
 pub fn run_shutdown(ctx: &mut Ctx) {
     let mut rng = Rng::new(ctx.seed.wrapping_add(13));
     let mut idx = 0u64;
-    let phases = ['i', 'h', 'r', 'b', 'w', 'I', 'H', 'x', 'f'];
+    let phases = ['i', 'h', 'r', 'b', 'w', 'I', 'H', 'x', 'f', 's'];
     // fixed schedules first: no connection; every single phase; all slots occupied by idle connections
     let mut cases: Vec<(usize, String)> = vec![(1, "-".to_string()), (3, "-".to_string())];
     for p in phases { cases.push((2, p.to_string())); cases.push((1, p.to_string())); }
